@@ -56,6 +56,15 @@ def _mk():
     S["parray_after_loop"] = hdr + parr("p1", "float", 2) + ["for int i in [%(m)s, %(m)s]", "    Dgate(%(f)s) | i", "Rgate(p1, k=p1) | %(m)s", "for int j in 0:2", "    Vac | j", "Sgate(p1) | %(m)s"]
     S["plain_array_like_parray"] = hdr + parr("p0", "float", 2) + parr("B", "float", 2) + parr("p1", "int", 2) + parr("C", "int", 2) + ["Rgate(p0) | %(m)s", "Rgate(B, k=C) | %(m)s", "Gate(C, p1) | %(m)s"]
     S["parray_first_then_scalar_same_stmt"] = hdr + parr("p0", "float", 2) + ["float y = %(f)s", "Gate(p0, y, k=y, j=p0) | %(m)s"]
+    # a p-array stays a name when the argument is written in brackets or with a sign in front (the value of `(p0)` is the value of `p0`)
+    S["parray_in_brackets"] = hdr + parr("p0", "float", 3) + parr("p1", "float", 3) + parr("p12", "int", 2) + [
+        "BSgate((p0), %(f)s) | [%(m)s, %(m)s]", "MeasureHomodyne(phi=(p1)) | %(m)s", "Rgate(+p12, k=((p0))) | %(m)s",
+        "for int i in [%(m)s, %(m)s]", "    Rgate((p1), k=+p0) | i"]
+    # ordinary arrays of a tdm program are declared under their own names AND passed by value: the names the serialiser
+    # generates for by-value arrays (A0, A1, ...) must not clash with them
+    S["plain_arrays_named_like_generated"] = hdr + parr("A1", "float", 2) + parr("A2", "float", 2) + parr("A0", "int", 2) + parr("p0", "float", 2) + [
+        "Gate(A1) | %(m)s", "Gate(A2, k=A0) | %(m)s", "Gate(p0, A2, j=A1) | %(m)s"]
+    S["plain_arrays_named_like_generated_kw"] = hdr + parr("A1", "float", 2) + parr("A2", "float", 2) + ["Gate(k=A1) | %(m)s", "Gate(k=A2) | %(m)s", "Gate(A1, A2, A1) | %(m)s"]
     # a bare p (no digits) is an ordinary name
     # names that Python's int() would read as numbers but that are not "p followed by digits" (digit-group underscores, ...)
     S["pnames_with_digit_groups"] = hdr + parr("p1_0", "float", 2) + parr("p0_1", "int", 2) + parr("p1_", "float", 2) + parr("p10", "float", 2) + [
